@@ -125,6 +125,9 @@ def handle : Handler := fun j a => do
   -- the step comparison (failed steps are projected away), so the raw statement log is consulted
   let evList := (jStrList j "evs").toOption.getD []
   let sawFreeze := obsAll.any fun o => o.s == "freezeRO" || o.s == "stopIO"
+  -- the async-lag exception is EVALUATED (the delay query is sent) only for an automatic failover in async mode
+  if (evList.any fun e => (e.splitOn ":").getD 1 "" |>.startsWith "calc_replmon_delay") && !(cfg.async && sw.causeAuto && cfg.asyncAllowedLag > 0) then
+    a := a.mismatch s!"c01 the async-lag exception was evaluated for a request the model does not grant it to (async={cfg.async} auto={sw.causeAuto}) on {j.compress}"
   let killedHost := match jOpt j "fault" with | some f => jStrOr f "kill" "" | none => ""
   if sawFreeze then
     for h in workList pre do
@@ -214,6 +217,15 @@ def handle : Handler := fun j a => do
              | some nf => nf.ro && contain ex (totalOf nf)
              | none => false)
           let asyncEscape := cfg.async && sw.causeAuto && cfg.asyncAllowedLag > 0
+          -- "the only exception is the configured allowed lag of async mode during AUTOMATIC failover": a node that is
+          -- promoted although a frozen member holds transactions it has not executed used that exception
+          let behind := active.any fun f =>
+            (ro f && (f == oldMaster || io f)) &&
+            (match nodes.find? (·.host == f) with
+             | some nf => f != h && nf.ro && !contain ex (totalOf nf)
+             | none => false)
+          if behind && !asyncEscape then
+            a := a.violationSig "C01:promoted-behind-a-frozen-member-outside-the-async-exception" s!"promoted {h} with {nm.executed}; {j.compress}"
           if (good.length : Int) < quorum && !asyncEscape then
             a := a.violationSig "C01:promotion-without-a-frozen-caught-up-quorum" s!"promoted {h}: frozen and contained = {good} of {active}, quorum {quorum}; {j.compress}"
           -- C19: never promoted while it carries relaxed settings or is still registered as optimising
